@@ -4,6 +4,7 @@
 -/
 import SuplaVerif.Model.RsTask
 import SuplaVerif.Model.FbTask
+import SuplaVerif.Model.AutoCal
 import SuplaVerif.Props.C09
 import SuplaVerif.Gen.Consts
 namespace SuplaVerif.C10
@@ -854,5 +855,196 @@ example :
 theorem c10_gate_consts :
     startGate = (Gen.rsParams.startDelay - Gen.rsParams.thresh + 1) * 1000 ∧
     relayHiUs = Gen.rsParams.preUs + Gen.rsParams.dblUs + Gen.rsParams.postUs := by decide
+
+
+/-! ### auto-calibration (Model/AutoCal) -/
+
+/-- the run time the step looks at: steps 1 and 3 run up, step 2 runs down -/
+def acTime (s : AcSt) (upT downT : Nat) : Nat := if s.step = 2 then downT else upT
+
+/-- **C10.A1 (a step never outlasts the limit)** in every calibration step, whatever the motor sensor says, the call made
+    once the run time of the step's direction is beyond the limit acts: a sensor reporting movement for ever fails the
+    calibration (times zeroed, failure flag, motor off with the task cancelled); a sensor reporting standstill ends the step -/
+theorem c10_ac_step_acts_after_max (P : AcParams) (hfm : P.filterMs ≤ P.maxMs) (s : AcSt) (upT downT : Nat) (mv : Bool)
+    (hs : 1 ≤ s.step ∧ s.step ≤ 3) (ht : P.maxMs * 1000 < acTime s upT downT) :
+    (acStep P s upT downT mv).2.1 ≠ .none ∧
+    (mv = true → (acStep P s upT downT mv).2.1 = .failed ∧ (acStep P s upT downT mv).1 = s.failNow) := by
+  have hf : ¬ (upT < P.filterMs * 1000 ∧ downT < P.filterMs * 1000) := by
+    unfold acTime at ht
+    have : P.filterMs * 1000 ≤ P.maxMs * 1000 := Nat.mul_le_mul_right _ hfm
+    split at ht <;> omega
+  unfold acStep
+  rw [if_neg (by omega), if_neg hf]
+  unfold acTime at ht
+  by_cases h1 : s.step = 1
+  · rw [if_pos h1]; rw [if_neg (by omega)] at ht
+    cases mv
+    · simp
+    · simp [ht]
+  · rw [if_neg h1]
+    by_cases h2 : s.step = 2
+    · rw [if_pos h2]; rw [if_pos h2] at ht
+      cases mv
+      · simp only [Bool.not_false, if_true]
+        split <;> simp
+      · simp [ht]
+    · rw [if_neg h2]
+      have h3 : s.step = 3 := by omega
+      rw [if_pos h3]; rw [if_neg h2] at ht
+      cases mv
+      · simp only [Bool.not_false, if_true]
+        split <;> simp
+      · simp [ht]
+
+/-- stored times are plausible while they matter: in step 3 the closing time is at least the minimum, and a finished
+    calibration has both times at least the minimum -/
+def AcInv (P : AcParams) (s : AcSt) : Prop :=
+  (s.step = 3 → P.minMs ≤ s.closing) ∧ (s.done = true → P.minMs ≤ s.closing ∧ P.minMs ≤ s.opening)
+
+theorem acInv_fail (P : AcParams) (s : AcSt) : AcInv P s.failNow :=
+  ⟨fun h => by simp [AcSt.failNow] at h, fun h => by simp [AcSt.failNow] at h⟩
+
+/-- **C10.A2 (plausible times or failure)** the invariant is kept by every call, for every run time and sensor reading -/
+theorem c10_ac_inv_step (P : AcParams) (s : AcSt) (upT downT : Nat) (mv : Bool) (hi : AcInv P s)
+    (hnd : 1 ≤ s.step → s.done = false) :
+    AcInv P (acStep P s upT downT mv).1 := by
+  obtain ⟨i1, i2⟩ := hi
+  unfold acStep
+  by_cases h0 : s.step = 0
+  · rw [if_pos h0]; exact ⟨i1, i2⟩
+  · rw [if_neg h0]
+    have hdn : s.done = false := hnd (by omega)
+    by_cases hf : upT < P.filterMs * 1000 ∧ downT < P.filterMs * 1000
+    · rw [if_pos hf]; exact ⟨i1, i2⟩
+    · rw [if_neg hf]
+      by_cases h1 : s.step = 1
+      · rw [if_pos h1]
+        cases mv
+        · simp only [Bool.not_false, if_true]
+          exact ⟨fun h => by simp at h, fun h => by simp [hdn] at h⟩
+        · simp only [Bool.not_true, Bool.false_eq_true, if_false]
+          split
+          · exact acInv_fail P s
+          · exact ⟨i1, i2⟩
+      · rw [if_neg h1]
+        by_cases h2 : s.step = 2
+        · rw [if_pos h2]
+          cases mv
+          · simp only [Bool.not_false, if_true]
+            by_cases hm : downT < P.minMs * 1000
+            · rw [if_pos hm]; exact acInv_fail P s
+            · rw [if_neg hm]
+              refine ⟨fun _ => ?_, fun h => by simp [hdn] at h⟩
+              show P.minMs ≤ downT / 1000
+              exact (Nat.le_div_iff_mul_le (by decide)).mpr (by omega)
+          · simp only [Bool.not_true, Bool.false_eq_true, if_false]
+            split
+            · exact acInv_fail P s
+            · exact ⟨i1, i2⟩
+        · rw [if_neg h2]
+          by_cases h3 : s.step = 3
+          · rw [if_pos h3]
+            cases mv
+            · simp only [Bool.not_false, if_true]
+              by_cases hm : upT < P.minMs * 1000
+              · rw [if_pos hm]; exact acInv_fail P s
+              · rw [if_neg hm]
+                refine ⟨fun h => by simp at h, fun _ => ⟨i1 h3, ?_⟩⟩
+                show P.minMs ≤ upT / 1000
+                exact (Nat.le_div_iff_mul_le (by decide)).mpr (by omega)
+            · simp only [Bool.not_true, Bool.false_eq_true, if_false]
+              split
+              · exact acInv_fail P s
+              · exact ⟨i1, i2⟩
+          · rw [if_neg h3]; exact ⟨i1, i2⟩
+
+/-- **C10.A3 (success only from step 3 with a sufficient run)** a call finishes the calibration exactly when it is in step 3,
+    the sensor reports standstill and the run up lasted at least the minimum; the stored opening time is that run -/
+theorem c10_ac_success_iff (P : AcParams) (s : AcSt) (upT downT : Nat) (mv : Bool) (hnd : s.done = false) :
+    (acStep P s upT downT mv).1.done = true ↔
+      s.step = 3 ∧ mv = false ∧ P.minMs * 1000 ≤ upT ∧ ¬ (upT < P.filterMs * 1000 ∧ downT < P.filterMs * 1000) := by
+  unfold acStep
+  by_cases h0 : s.step = 0
+  · rw [if_pos h0]; simp [hnd]; omega
+  · rw [if_neg h0]
+    by_cases hf : upT < P.filterMs * 1000 ∧ downT < P.filterMs * 1000
+    · rw [if_pos hf]; simp [hnd]; intro _ _ _; exact hf
+    · rw [if_neg hf]
+      by_cases h1 : s.step = 1
+      · rw [if_pos h1]
+        cases mv
+        · simp [hnd, h1]
+        · simp only [Bool.not_true, Bool.false_eq_true, if_false]
+          split <;> simp [hnd, AcSt.failNow]
+      · rw [if_neg h1]
+        by_cases h2 : s.step = 2
+        · rw [if_pos h2]
+          cases mv
+          · simp only [Bool.not_false, if_true]
+            split <;> simp [hnd, h2, AcSt.failNow]
+          · simp only [Bool.not_true, Bool.false_eq_true, if_false]
+            split <;> simp [hnd, AcSt.failNow]
+        · rw [if_neg h2]
+          by_cases h3 : s.step = 3
+          · rw [if_pos h3]
+            cases mv
+            · simp only [Bool.not_false, if_true]
+              by_cases hm : upT < P.minMs * 1000
+              · rw [if_pos hm]; simp [AcSt.failNow]; omega
+              · rw [if_neg hm]; simp [h3]; exact ⟨by omega, fun h => by omega⟩
+            · simp only [Bool.not_true, Bool.false_eq_true, if_false]
+              split <;> simp [hnd, AcSt.failNow]
+          · rw [if_neg h3]; simp [hnd, h3]
+
+/-- **C10.A4 (a sensor that never reports movement)** a run down in step 2 whose callbacks come at most `minMs - filterMs`
+    apart, with the sensor always reporting standstill, ends in failure as soon as the filter time has passed - the motor does
+    not stay on: the action that ends the run is never a relay request, and it is the failure once the samples reach the filter -/
+theorem c10_ac_never_moving_fails (P : AcParams) (hmf : P.filterMs ≤ P.minMs) (s : AcSt) (hs : s.step = 2) :
+    ∀ (dts : List (Nat × Bool)) (t0 : Nat), t0 < P.filterMs * 1000 →
+      (∀ d ∈ dts, d.2 = false ∧ d.1 ≤ (P.minMs - P.filterMs) * 1000) →
+      ((acRun P false s t0 dts).2.1 = .failed ∧ (acRun P false s t0 dts).1 = s.failNow) ∨
+      ((acRun P false s t0 dts).2.1 = .none ∧ (acRun P false s t0 dts).2.2 < P.filterMs * 1000) := by
+  intro dts
+  induction dts with
+  | nil => intro t0 h0 _; right; exact ⟨rfl, h0⟩
+  | cons d rest ih =>
+    intro t0 h0 hd
+    obtain ⟨hmv, hdt⟩ := hd d (by simp)
+    obtain ⟨dt, mv⟩ := d
+    simp only at hmv hdt
+    subst hmv
+    unfold acRun
+    simp only [Bool.false_eq_true, if_false]
+    by_cases hf : t0 + dt < P.filterMs * 1000
+    · have e : acStep P s 0 (t0 + dt) false = (s, .none, false) := by
+        unfold acStep
+        rw [if_neg (by omega), if_pos ⟨by omega, hf⟩]
+      rw [e]
+      simp only [if_true]
+      exact ih (t0 + dt) hf (fun x hx => hd x (by simp [hx]))
+    · have hlt : t0 + dt < P.minMs * 1000 := by
+        have : (P.minMs - P.filterMs) * 1000 = P.minMs * 1000 - P.filterMs * 1000 := Nat.sub_mul _ _ _
+        have : P.filterMs * 1000 ≤ P.minMs * 1000 := Nat.mul_le_mul_right _ hmf
+        omega
+      have e : acStep P s 0 (t0 + dt) false = (s.failNow, .failed, false) := by
+        unfold acStep
+        rw [if_neg (by omega), if_neg (by omega), if_neg (by omega), if_pos hs]
+        simp [hlt]
+      rw [e]
+      left
+      simp
+
+/-- the constants of /repo: filter 300 ms <= minimum 500 ms <= limit 590 s, below the general ten-minute cut-off -/
+theorem c10_ac_consts : Gen.acParams.filterMs ≤ Gen.acParams.minMs ∧ Gen.acParams.minMs ≤ Gen.acParams.maxMs ∧
+    Gen.acParams.maxMs * 1000 < 600 * 1000 * 1000 := by decide
+
+/- non-vacuity: a complete calibration: step 1 ends at standstill, step 2 measures 17.5 s, step 3 measures 16 s -/
+example : (acStep Gen.acParams { step := 1, closing := 0, opening := 0 } 5000000 0 false) =
+    ({ step := 2, closing := 0, opening := 0 }, .relay 1, false) := by decide
+example : (acStep Gen.acParams { step := 2, closing := 0, opening := 0 } 0 17500000 false) =
+    ({ step := 3, closing := 17500, opening := 0 }, .relay 2, true) := by decide
+example : (acStep Gen.acParams { step := 3, closing := 17500, opening := 0 } 16000000 0 false) =
+    ({ step := 0, closing := 17500, opening := 16000, done := true }, .relay 0, true) := by decide
+example : (acStep Gen.acParams { step := 3, closing := 17500, opening := 0 } 590000001 0 true).2.1 = .failed := by decide
 
 end SuplaVerif.C10
